@@ -239,7 +239,15 @@ def ob_psk_init(M):
         from pyphysim.modulators.fundamental import PSK
         o = it.call(PSK, [M, phi])
         return _psk_labelling_goals(c, it, M, o.fields.get("symbols"), phi)
-    return verify(body, check_side=False, timeout_ms=120000)
+
+    def rp(model):
+        from pyphysim.modulators.fundamental import PSK
+        for phi in (float(model.get("phi", 0.0) or 0.0), 0.1, 0.7):
+            bad = _psk_native_gray_violations(PSK(M, phi).symbols) if M <= 1024 else []
+            if bad:
+                return {"confirmed": True, "M": M, "phaseOffset": phi, "non_gray_neighbour_pairs": bad[:4]}
+        return {"confirmed": False, "M": M}
+    return verify(body, replay=rp, check_side=False, timeout_ms=120000)
 
 
 @obligation("psk/setPhaseOffset_gray_labelled", params=[{"M": M} for M in (4, 8, 16)],
